@@ -39,8 +39,7 @@ class C13(Prop):
                   'gpu. Per-job extra disks (dynamic disk resources) are billed per job: gcp exactly ext GiB, azure the least disk size >= ext.')
     level_note = ('Trusted: Lean kernel; table translator harness/extract/machines.py; the hand-written model agrees with the Python classes '
                   'only as far as the correspondence cases show; resource names come from a fake ProductVersions (names are opaque in the '
-                  'model); `create` itself (which resources a config gets) is exercised through the real code only; TerraAzure configs are '
-                  'not covered.')
+                  'model); `create` itself (which resources a config gets) is exercised through the real code only; resource_id of Terra configs is opaque.')
     budget = {'quick': 6000, 'thorough': 100000}
     search_budget = {'quick': 4000, 'thorough': 60000}
     rule = ('case = (cloud, machine type from the generated table, preemptible, local-ssd or external data disk with size, boot disk size, '
@@ -55,6 +54,9 @@ class C13(Prop):
                    'azure extra storage <= the largest managed disk (32 TiB), as C12 guarantees']
 
     tables = None
+
+    def extra_coverage(self):
+        return {'instance_config_classes_covered': getattr(self, 'config_classes', [])}
 
     def generate(self, repo):
         for k, v in _ENV.items():
@@ -74,7 +76,20 @@ class C13(Prop):
         from batch.cloud.utils import instance_config_from_config_dict
         from batch.driver.billing_manager import ProductVersionInfo, ProductVersions
         self.res = res
-        self.cls = {'gcp': GCPSlimInstanceConfig, 'azure': AzureSlimInstanceConfig}
+        from batch.cloud.terra.azure.instance_config import TerraAzureSlimInstanceConfig
+        from batch.instance_config import InstanceConfig
+        self.cls = {'gcp': GCPSlimInstanceConfig, 'azure': AzureSlimInstanceConfig, 'terra': TerraAzureSlimInstanceConfig}
+
+        def subclasses(k):
+            out = []
+            for x in k.__subclasses__():
+                out += [x] + subclasses(x)
+            return out
+        # every InstanceConfig class the tree defines must be one the cases cover
+        self.config_classes = sorted(x.__name__ for x in subclasses(InstanceConfig))
+        unknown = set(subclasses(InstanceConfig)) - set(self.cls.values())
+        if unknown:
+            raise RuntimeError(f'InstanceConfig subclasses the check does not cover: {sorted(x.__name__ for x in unknown)}')
         self.from_dict = instance_config_from_config_dict
         self.PV, self.PVI = ProductVersions, ProductVersionInfo
         t = self.tables
@@ -108,10 +123,23 @@ class C13(Prop):
         return self.PV(Versions())
 
     def _create(self, c):
-        return self.cls[c['cloud']].create(
+        return self.cls['terra' if c.get('terra') else c['cloud']].create(
             product_versions=self._product_versions(c), machine_type=c['machine_type'], preemptible=c['preemptible'],
             local_ssd_data_disk=c['local_ssd'], data_disk_size_gb=c['data_disk'], boot_disk_size_gb=c['boot_disk'],
             job_private=c['job_private'], location=c['location'])
+
+    def _reload(self, c, d):
+        """the dispatch the driver uses to read a stored config (batch.cloud.utils.instance_config_from_config_dict); Terra deployments
+        are selected by the HAIL_TERRA environment variable"""
+        old = os.environ.pop('HAIL_TERRA', None)
+        try:
+            if c.get('terra'):
+                os.environ['HAIL_TERRA'] = '1'
+            return self.from_dict(d)
+        finally:
+            os.environ.pop('HAIL_TERRA', None)
+            if old is not None:
+                os.environ['HAIL_TERRA'] = old
 
     def _stored(self, c):
         """the dict as it comes back from the database"""
@@ -144,7 +172,7 @@ class C13(Prop):
 
     def impl(self, c):
         d = self._stored(c)
-        cfg = self.from_dict(d)
+        cfg = self._reload(c, d)
         out = [self._line(self._bill(cfg, j)) for j in self._jobs(c)]
         out.append(self._render(cfg.to_dict()))
         return out
@@ -172,7 +200,7 @@ class C13(Prop):
 
     def _enc(self, d):
         b = lambda x: '1' if x else '0'
-        t = [d['cloud'], str(d['version']), self._tok(d['machine_type']), b(d['preemptible']), b(d['local_ssd_data_disk']),
+        t = ['terra' if 'resource_id' in d else d['cloud'], str(d['version']), self._tok(d['machine_type']), b(d['preemptible']), b(d['local_ssd_data_disk']),
              str(d['data_disk_size_gb']), str(d['boot_disk_size_gb']), b(d['job_private'])]
         if d.get('resources') is None:
             return t + ['~']
@@ -207,6 +235,8 @@ class C13(Prop):
 
     def model_lines(self, c):
         enc = self._enc(self._stored(c))
+        if c.get('terra'):
+            enc[0] = 'terra'
         lines = [' '.join(['q'] + enc + ['J', str(j[0]), str(j[1]), str(j[2])]) for j in self._jobs(c)]
         lines.append(' '.join(['d'] + enc))
         return lines
@@ -231,7 +261,7 @@ class C13(Prop):
         jobs = self._jobs(c)
         bills = [self._parse(o) for o in out[:len(jobs)]]
         d = self._stored(c)
-        cfg1 = self.from_dict(d)
+        cfg1 = self._reload(c, d)
         legacy = c.get('legacy')
         # (3) serialization: the reloaded config bills what the original bills
         if legacy is None or (legacy == 'accelerator_v1' and not any(
@@ -392,11 +422,13 @@ class C13(Prop):
                 c['memory_from'] = 'grant'
                 for j in c['jobs']:
                     j[1] = self.grant[cloud](j[0], wt)
+            if cloud == 'azure' and rng.random() < 0.3:
+                c['terra'] = True          # TerraAzureSlimInstanceConfig (Terra on Azure): VM + boot disk only
             r = rng.random()
             if cloud == 'gcp' and '+nvidia' in mt or mt.startswith(('g2-', 'a2-')):
                 if r < 0.2:
                     c['legacy'] = 'accelerator_v1'
-            elif cloud == 'azure' and r < 0.03:
+            elif cloud == 'azure' and r < 0.03 and not c.get('terra'):
                 c['legacy'] = 'azure_v1'
             yield c
 
@@ -404,7 +436,7 @@ class C13(Prop):
         cores, _memory = self.machines[c['cloud']][c['machine_type']]
         jobs = c['jobs']
         n_err = sum(1 for o in out[:-1] if o == 'err')
-        tags = [f"cloud={c['cloud']}", 'job_private' if c['job_private'] else 'pool-worker',
+        tags = [f"cloud={c['cloud']}" + ('(terra)' if c.get('terra') else ''), 'job_private' if c['job_private'] else 'pool-worker',
                 'cores=pow2' if is_pow2(cores) else 'cores=not-pow2',
                 f"jobs={len(jobs) if len(jobs) < 3 else '3-8' if len(jobs) <= 8 else '9+'}",
                 'some-assert' if n_err else 'all-billed']
